@@ -22,11 +22,17 @@ const (
 	tEmpty
 	tCall
 	tCreate
-	tSelf // the sender pays itself (aliasing of the two sides of Transfer)
+	tSelf    // the sender pays itself (aliasing of the two sides of Transfer)
+	tFactory // call into a CREATE/CREATE2 factory (directly or through a wrapper), own gas classes and pool
 	nTargets
 )
 
-var targetNames = []string{"eoa", "fresh-empty", "call-contract", "create", "self"}
+var targetNames = []string{"eoa", "fresh-empty", "call-contract", "create", "self", "call-factory"}
+
+// gas classes and pool of the factory family
+const factoryPool = 25000000
+
+var factoryGasNames = []string{"intrinsic+40000", "200000", "8000000", "20000000"}
 
 func plainTarget(t int) bool { return t == tEOA || t == tEmpty || t == tSelf }
 
@@ -57,12 +63,24 @@ type txSpec struct {
 	Target int    `json:"target"`
 	CbSend bool   `json:"coinbase_is_sender,omitempty"` // the block proposer is the sender itself (aliasing)
 	Prog   []int  `json:"program,omitempty"`
+	Fact   int    `json:"factory,omitempty"`  // tFactory: which factory
+	ViaCal bool   `json:"via_call,omitempty"` // tFactory: through the wrapper contract (CREATE* runs at depth 2)
 	Desc   string `json:"desc,omitempty"`
 }
 
 func (s txSpec) String() string {
+	gn := gasNames[s.Gas]
+	if s.Target == tFactory {
+		gn = factoryGasNames[s.Gas]
+	}
 	d := fmt.Sprintf("%s sender=%s nonce=%s value=%s gas=%s price=%v target=%s", forkNames[s.Fork], senderNames[s.Sender], nonceNames[s.Nonce],
-		valueNames[s.Value], gasNames[s.Gas], prices[s.Price], targetNames[s.Target])
+		valueNames[s.Value], gn, prices[s.Price], targetNames[s.Target])
+	if s.Target == tFactory {
+		d += " factory=" + factoryName(s.Fact)
+		if s.ViaCal {
+			d += " via-wrapper-CALL"
+		}
+	}
 	if s.Target == tCall || s.Target == tCreate {
 		d += " program=" + progName(s.Prog)
 	}
@@ -105,6 +123,7 @@ type concrete struct {
 	intr     uint64
 	fee      *big.Int // gas limit * price
 	balance  *big.Int
+	pool     uint64 // gas pool handed to ApplyTransaction
 	expValid bool
 	expClass string // first failing pre-check in the order of the specification, "" if valid
 }
@@ -125,22 +144,34 @@ func (s txSpec) concrete() (c concrete, ok bool) {
 	case tSelf:
 		a := senders[s.Sender]
 		c.to = &a
+	case tFactory:
+		a := factoryAddr(s.Fact)
+		if s.ViaCal {
+			a = wrapperAddr(s.Fact)
+		}
+		c.to = &a
 	}
+	c.pool = poolInit
 	c.intr = intrinsic(s.Fork, s.Target == tCreate, c.data)
 	c.nonce = uint64(senderNonce + s.Nonce - 1)
-	switch s.Gas {
-	case 0:
-		c.gas = c.intr - 1
-	case 1:
-		c.gas = c.intr
-	case 2:
-		c.gas = c.intr + gasTightPlus
-	case 3:
-		c.gas = gasAmple
-	case 4:
-		c.gas = poolInit
-	case 5:
-		c.gas = poolInit + 1
+	if s.Target == tFactory {
+		c.pool = factoryPool
+		c.gas = []uint64{c.intr + 40000, 200000, 8000000, 20000000}[s.Gas]
+	} else {
+		switch s.Gas {
+		case 0:
+			c.gas = c.intr - 1
+		case 1:
+			c.gas = c.intr
+		case 2:
+			c.gas = c.intr + gasTightPlus
+		case 3:
+			c.gas = gasAmple
+		case 4:
+			c.gas = poolInit
+		case 5:
+			c.gas = poolInit + 1
+		}
 	}
 	c.price = prices[s.Price]
 	c.balance = senderBalance(s.Sender)
@@ -171,7 +202,7 @@ func (s txSpec) concrete() (c concrete, ok bool) {
 		c.expClass = "nonce-too-high"
 	case c.balance.Cmp(c.fee) < 0:
 		c.expClass = "insufficient-funds-for-gas"
-	case c.gas > poolInit:
+	case c.gas > c.pool:
 		c.expClass = "block-gas-exhausted"
 	case c.gas < c.intr:
 		c.expClass = "intrinsic-gas"
@@ -244,6 +275,8 @@ type txResult struct {
 	usedPre  uint64 // gas used before the refund (0 if unknown)
 	refund   uint64
 	capBinds bool
+	exactGas bool // the exact gas figure was checked
+	creates  int  // CREATE/CREATE2 steps whose frame gas accounting was checked
 	burn     *big.Int
 	ops      uint32
 	residue  bool // late rejection left exactly the gas purchase behind (tolerated, see assumptions)
@@ -277,19 +310,24 @@ func evalTx(p *preState, spec txSpec, tx *types.Transaction, c concrete) *txResu
 	r := &txResult{spec: spec, conc: c, burn: new(big.Int)}
 	st := p.st0.Copy()
 	before := p.snap
-	gp := new(types.GasPool).AddGas(poolInit)
+	pool := c.pool
+	gp := new(types.GasPool).AddGas(pool)
 	used := uint64(0)
-	hdr := header(forkHeight(spec.Fork), poolInit)
+	hdr := header(forkHeight(spec.Fork), pool)
 	coinbase := addrCoinbase
 	if spec.CbSend {
 		coinbase = senders[spec.Sender]
 		hdr.ProposerAddress = coinbase
 	}
-	tr := &burnTracer{}
+	tr := &burnTracer{createGas: 32000}
+	if spec.Fork == 0 {
+		tr.createGas = 64000 // the pre-Galaxias interpreter charges the constant part of CREATE/CREATE2 twice (A7)
+	}
 	st.Prepare(tx.Hash(), common.Hash{}, 0)
 	rev := st.Snapshot()
 	rc, gasRet, err, panicked := applyReal(st, gp, hdr, tx, &used, kvm.Config{Debug: true, Tracer: tr})
 	r.ops = tr.ops
+	r.creates = tr.creates
 	if panicked != "" {
 		r.class, r.status = "panic", "panic"
 		r.fail("no-panic", "ApplyTransaction panicked: "+strings.SplitN(panicked, "\n", 2)[0])
@@ -318,7 +356,7 @@ func evalTx(p *preState, spec txSpec, tx *types.Transaction, c concrete) *txResu
 			}
 			stateDirty = true
 		}
-		poolDelta := int64(poolInit) - int64(poolAfter)
+		poolDelta := int64(pool) - int64(poolAfter)
 		if stateDirty || poolDelta != 0 {
 			// Tolerated residue (assumption A2): a rejection decided after buyGas may leave exactly the purchase
 			// behind -- sender debited gasLimit*price, pool debited gasLimit -- for the caller to undo.
@@ -337,7 +375,7 @@ func evalTx(p *preState, spec txSpec, tx *types.Transaction, c concrete) *txResu
 				r.fail("state-unchanged", fmt.Sprintf("rejected with %q but the state differs before any caller-side revert: %s", r.errStr, describeDiff(before, strict)))
 			}
 			if !poolOK {
-				r.fail("gas-pool-unchanged", fmt.Sprintf("rejected with %q but the gas pool went %d -> %d", r.errStr, poolInit, poolAfter))
+				r.fail("gas-pool-unchanged", fmt.Sprintf("rejected with %q but the gas pool went %d -> %d", r.errStr, pool, poolAfter))
 			}
 			r.residue = stateDirty && stateOK
 			r.poolLeak = poolDelta != 0 && poolOK
@@ -355,7 +393,7 @@ func evalTx(p *preState, spec txSpec, tx *types.Transaction, c concrete) *txResu
 				r.fail("state-unchanged-after-revert", fmt.Sprintf("rejected with %q and reverted to the snapshot, but the state differs: %s", r.errStr, describeDiff(before, weak)))
 			}
 		}
-		r.obs = fmt.Sprintf("rejected %q pool %d->%d residue=%v", r.errStr, poolInit, poolAfter, r.residue)
+		r.obs = fmt.Sprintf("rejected %q pool %d->%d residue=%v", r.errStr, pool, poolAfter, r.residue)
 		return r
 	}
 
@@ -386,8 +424,11 @@ func evalTx(p *preState, spec txSpec, tx *types.Transaction, c concrete) *txResu
 	if rc.GasUsed > c.gas {
 		r.fail("gas-used-le-limit", fmt.Sprintf("gas used %d > gas limit %d", rc.GasUsed, c.gas))
 	}
-	if poolAfter > poolInit || poolInit-poolAfter != rc.GasUsed {
-		r.fail("gas-pool-delta", fmt.Sprintf("pool %d -> %d but gas used %d", poolInit, poolAfter, rc.GasUsed))
+	if poolAfter > pool || pool-poolAfter != rc.GasUsed {
+		r.fail("gas-pool-delta", fmt.Sprintf("pool %d -> %d but gas used %d", pool, poolAfter, rc.GasUsed))
+	}
+	if tr.gasViol != "" {
+		r.fail("frame-gas-not-minted", tr.gasViol)
 	}
 	if tr.started && tr.ended {
 		r.usedPre = c.intr + tr.vmGas
@@ -403,6 +444,20 @@ func evalTx(p *preState, spec txSpec, tx *types.Transaction, c concrete) *txResu
 				r.fail("refund-cap", fmt.Sprintf("refund %d > half of the gas used before refund (%d/2); refund counter %d", r.refund, r.usedPre, tr.refundCtr))
 			}
 			r.capBinds = tr.refundCtr > r.usedPre/2
+		}
+	}
+	// exact gas figure of the direct factory calls, from the gas schedule (no refunds in these programs)
+	if spec.Target == tFactory && !spec.ViaCal && c.gas >= c.intr {
+		want, _ := factoryGas(spec.Fork, spec.Fact, c.gas-c.intr)
+		ok := false
+		for _, u := range want {
+			if rc.GasUsed == c.intr+u {
+				ok = true
+			}
+		}
+		r.exactGas = true
+		if !ok {
+			r.fail("exact-gas-figure", fmt.Sprintf("gas used %d, the gas schedule gives intrinsic %d + %v for this program", rc.GasUsed, c.intr, want))
 		}
 	}
 	fee := new(big.Int).Mul(new(big.Int).SetUint64(rc.GasUsed), c.price)
@@ -468,7 +523,7 @@ func evalTx(p *preState, spec txSpec, tx *types.Transaction, c concrete) *txResu
 }
 
 func opsString(o uint32) string {
-	names := []string{"CALL", "CREATE", "REVERT", "INVALID", "STATICCALL", "SD-SELF", "SD-OTHER", "SSTORE", "inner-failed", "inner-reverted"}
+	names := []string{"CALL", "CREATE", "REVERT", "INVALID", "STATICCALL", "SD-SELF", "SD-OTHER", "SSTORE", "inner-failed", "inner-reverted", "CREATE2"}
 	var out []string
 	for i, n := range names {
 		if o&(1<<uint(i)) != 0 {
